@@ -1,4 +1,142 @@
-From Coq Require Import NArith Bool List.
-From CppUVerif Require Import C05_Model.
-Theorem C05_placeholder : True. Proof. exact I. Qed.
-Print Assumptions C05_placeholder.
+(* C05 -- Tracked allocations return sound blocks for every size, or fail cleanly.
+   Only statements; every proof is `exact <lemma>` into C05_Proofs.v / C05_History.v / C05_Theorems.v.
+   Model (C05_Model.v): allocMemory / reallocMemory / deallocMemory with the size arithmetic modulo W = 2^64, guard bytes G c
+   (3, or 0 in the build without them), records inline or in their own region, cpputest_calloc/strdup/strndup, operator new
+   variants; the underlying allocator is an oracle (a list of failing call indices; every successful call yields a fresh
+   region named by its call index).  `fixed` = the code as repaired (D2 D3 D4 D5 D20).
+   inv c idx s = no out-of-bounds access happened, ids unique and below idx, the table tracks exactly the live blocks, all
+   regions of live blocks (blocks and separate records) distinct and older than the call counter, every block laid out
+   soundly with as many content bytes as its size. *)
+From Coq Require Import NArith List Bool Permutation.
+From CppUVerif Require Import gen.Gen_Common gen.Gen_C05 lib.Str C05_Model C05_Proofs C05_History C05_Theorems.
+Import ListNotations.
+Local Open Scope N_scope.
+
+(* every valid scenario (any sizes below 2^64, any fault points, both builds): the model's observation passes the oracle *)
+Theorem C05_run_meets_spec : forall sc, valid sc = true -> spec sc (run sc) = true.
+Proof. exact run_meets_spec. Qed.
+Print Assumptions C05_run_meets_spec.
+
+(* sizes with n + G + 8 + record < 2^64: the request does not wrap; the record offset is the next multiple of 8 strictly above
+   n + G; user bytes [0,n), guard [n,n+G), record [node,node+record) lie in this order inside [0,request); usable >= n *)
+Theorem C05_layout_sound : forall c sep n,
+  valid_cfg c = true -> n + G c + 8 + node_size c < W -> (sep = false -> guard_on c = true) ->
+  let req := request c sep n in let node := with_guard c n in
+  req < W /\ (if sep then req = node else req = node + node_size c) /\
+  (guard_on c = true -> node = n + G c + (8 - (n + G c) mod 8) /\ node mod 8 = 0) /\ (guard_on c = false -> node = n) /\
+  n + G c <= node /\ node <= n + G c + 8 /\ n + G c <= req /\ n <= req /\ (sep = false -> node + node_size c <= req) /\
+  layout_fine c sep n req = true.
+Proof. exact layout_sound. Qed.
+Print Assumptions C05_layout_sound.
+
+(* all histories: no out-of-bounds access ever happens and every live block has a sound layout: region below 2^64, user bytes
+   and guard before the (8-aligned) inline record, record inside the region, as many content bytes as requested *)
+Theorem C05_blocks_sound : forall c f ops, valid_cfg c = true -> forallb valid_op ops = true ->
+  let s := fst (steps fixed c f st0 0 ops) in
+  s_err s = false /\
+  Forall (fun b => block_layout_ok c b /\ N.of_nat (length (b_data b)) = b_size b /\ b_size b <= b_req b) (s_blocks s).
+Proof. exact blocks_sound. Qed.
+Print Assumptions C05_blocks_sound.
+
+(* sizes that would wrap once the bookkeeping is added, and calloc products >= 2^64: NULL, state untouched, no underlying call *)
+Theorem C05_overflow_rejected : forall c f s idx, valid_cfg c = true ->
+  (forall fam ws n data, W <= n + G c + 8 + node_size c -> alloc_mem fixed c f s idx fam ws n data = (ANull, s, [])) /\
+  (forall ob n, W <= n + G c + 8 + node_size c -> realloc_mem fixed c f s idx ob n = (ANull, s, [])) /\
+  (forall num size, W <= num * size -> calloc_mem fixed c f s idx num size = (ANull, s, [])) /\
+  (forall num size, W <= num * size + G c + 8 + node_size c -> calloc_mem fixed c f s idx num size = (ANull, s, [])).
+Proof. exact overflow_rejected. Qed.
+Print Assumptions C05_overflow_rejected.
+
+(* the same at the entry points: NULL (bad_alloc for the throwing operator new), no call, nothing changed *)
+Theorem C05_overflow_rejected_op : forall c f s idx o thr n, valid_cfg c = true -> op_request o = Some (thr, n) ->
+  W <= n + G c + 8 + node_size c ->
+  step fixed c f s idx o = (s, mk_oobs (if thr then K_BAD else K_NULL) [] 0 0 0 [] (total s) 0).
+Proof. exact overflow_rejected_op. Qed.
+Print Assumptions C05_overflow_rejected_op.
+
+(* an underlying call refuses, at any point of any history, in any entry point (malloc, realloc, calloc, strdup, strndup, new,
+   new[], nothrow): NULL -- bad_alloc exactly for the throwing new --, the same blocks, the same table up to order (every
+   block, the one being reallocated included, still tracked), every region obtained meanwhile given back, invariant kept *)
+Theorem C05_oom_clean : forall c f s idx o, valid_cfg c = true -> valid_op o = true -> inv c idx s ->
+  let s' := fst (step fixed c f s idx o) in let ob := snd (step fixed c f s idx o) in
+  any_failed (o_calls ob) = true ->
+  o_kind ob = (if throws o then K_BAD else K_NULL) /\ s_blocks s' = s_blocks s /\ Permutation (s_table s') (s_table s) /\
+  (forall b, In b (s_blocks s) -> In (b_id b) (s_table s')) /\
+  balanced (o_calls ob) = true /\ o_total ob = total s /\ s_err s' = false /\ inv c (idx + 1) s'.
+Proof. exact oom_clean. Qed.
+Print Assumptions C05_oom_clean.
+
+(* ... and NULL / bad_alloc never comes without such a cause *)
+Theorem C05_null_has_cause : forall c f s idx o, valid_cfg c = true -> valid_op o = true -> inv c idx s ->
+  let ob := snd (step fixed c f s idx o) in
+  o_kind ob = K_NULL \/ o_kind ob = K_BAD ->
+  any_failed (o_calls ob) = true \/ W <= op_size o + G c + 8 + node_size c.
+Proof. exact null_has_cause. Qed.
+Print Assumptions C05_null_has_cause.
+
+(* the invariant holds after every history *)
+Theorem C05_history_inv : forall c f ops, valid_cfg c = true -> forallb valid_op ops = true ->
+  inv c (N.of_nat (length ops)) (fst (steps fixed c f st0 0 ops)).
+Proof. exact history_inv. Qed.
+Print Assumptions C05_history_inv.
+
+(* all histories (fold over the operation list): if the regions the oracle handed out for the live blocks do not overlap at
+   their addresses [base], then user areas (with guard bytes) of different live blocks are apart, records of different live
+   blocks are apart, and every user area is apart from every record, its own included *)
+Theorem C05_live_disjoint : forall base c f ops, valid_cfg c = true -> forallb valid_op ops = true ->
+  let s := fst (fold_left (fun (a : st * N) o => (fst (step fixed c f (fst a) (snd a) o), snd a + 1)) ops (st0, 0)) in
+  oracle_disjoint base c (s_blocks s) ->
+  (forall b1 b2, In b1 (s_blocks s) -> In b2 (s_blocks s) -> b_id b1 <> b_id b2 ->
+     apart (user_start base b1) (b_size b1 + G c) (user_start base b2) (b_size b2 + G c) /\
+     apart (record_start base b1) (node_size c) (record_start base b2) (node_size c)) /\
+  (forall b1 b2, In b1 (s_blocks s) -> In b2 (s_blocks s) ->
+     apart (user_start base b1) (b_size b1 + G c) (record_start base b2) (node_size c)).
+Proof. exact live_disjoint. Qed.
+Print Assumptions C05_live_disjoint.
+
+(* that fold reaches the state [run] works with *)
+Theorem C05_fold_is_steps : forall c f ops s idx,
+  fst (fold_left (fun (a : st * N) o => (fst (step fixed c f (fst a) (snd a) o), snd a + 1)) ops (s, idx)) = fst (steps fixed c f s idx ops).
+Proof. exact fold_is_steps. Qed.
+Print Assumptions C05_fold_is_steps.
+
+(* realloc: the new block has n bytes and its first min(old,n) bytes are the old block's *)
+Theorem C05_realloc_prefix : forall c f s idx b0 n b s' cs, valid_cfg c = true -> n < W -> N.of_nat (length (b_data b0)) = b_size b0 ->
+  realloc_mem fixed c f s idx (Some b0) n = (ABlock b, s', cs) ->
+  b_size b = n /\ N.of_nat (length (b_data b)) = n /\
+  firstn (N.to_nat (N.min (b_size b0) n)) (b_data b) = firstn (N.to_nat (N.min (b_size b0) n)) (b_data b0).
+Proof. exact realloc_prefix. Qed.
+Print Assumptions C05_realloc_prefix.
+
+(* calloc: a block is returned only for a product below 2^64, has exactly that many bytes, all zero *)
+Theorem C05_calloc_zero : forall c f s idx num size b s' cs, valid_cfg c = true ->
+  calloc_mem fixed c f s idx num size = (ABlock b, s', cs) ->
+  num * size < W /\ b_size b = num * size /\ b_data b = repeat 0 (N.to_nat (num * size)) /\ num * size + G c <= b_req b.
+Proof. exact calloc_zero. Qed.
+Print Assumptions C05_calloc_zero.
+
+(* strdup: exactly the bytes of the C string and its terminator, len + 1 bytes *)
+Theorem C05_strdup_exact : forall c f s idx str b s' cs, valid_cfg c = true -> N.of_nat (length str) < 4294967296 ->
+  strdup_mem fixed c f s idx str = (ABlock b, s', cs) ->
+  b_data b = cut_nul str ++ [0] /\ b_size b = N.of_nat (length (cut_nul str)) + 1.
+Proof. exact strdup_exact. Qed.
+Print Assumptions C05_strdup_exact.
+
+(* strndup: the first min(len,k) bytes of the string, terminated, exactly min(len,k) + 1 bytes *)
+Theorem C05_strndup_exact : forall c f s idx str k b s' cs, valid_cfg c = true -> N.of_nat (length str) < 4294967296 ->
+  strndup_mem fixed c f s idx str k = (ABlock b, s', cs) ->
+  let m := N.min (N.of_nat (length (cut_nul str))) k in
+  b_data b = firstn (N.to_nat m) (cut_nul str) ++ [0] /\ b_size b = m + 1.
+Proof. exact strndup_exact. Qed.
+Print Assumptions C05_strndup_exact.
+
+(* the code as it was before the repairs (D2 wrapped request, D3 calloc product, D4 failed realloc drops the record, D5 strdup
+   into NULL, D20 NULL record): each variant violates the oracle on a computed witness (corpus/C05/defects.scn) *)
+Theorem C05_old_refuted :
+  (valid witness_D2 = true /\ spec witness_D2 (run_v old_D2 witness_D2) = false) /\
+  (valid witness_D3 = true /\ spec witness_D3 (run_v old_D3 witness_D3) = false) /\
+  (valid witness_D4 = true /\ spec witness_D4 (run_v old_D4 witness_D4) = false) /\
+  (valid witness_D5 = true /\ spec witness_D5 (run_v old_D5 witness_D5) = false) /\
+  (valid witness_D20 = true /\ spec witness_D20 (run_v old_D20 witness_D20) = false).
+Proof. exact old_refuted. Qed.
+Print Assumptions C05_old_refuted.
